@@ -303,9 +303,9 @@ Acts     == SetActs(ValSet) \cup GetActs \cup RemActs \cup MiscActs \cup TickAct
 
 Init == \E sz \in SizeSet, dt \in DTTLSet : InitWith(NK, sz, dt, 0)
 (* bound: a Set always stores a value different from the one the key holds (so that a stale *)
-(* read is visible) - the smallest such value                                              *)
+(* read is visible) - the smallest such value (a one-element ValSet switches this off)     *)
 FreshVal(a) == a.op = "set" =>
-                 a.v = IF MHas(mem, a.k) /\ ~MExpired(mem, a.k) /\ mem.node[a.k].val = 1
+                 a.v = IF 2 \in ValSet /\ MHas(mem, a.k) /\ ~MExpired(mem, a.k) /\ mem.node[a.k].val = 1
                        THEN 2 ELSE 1
 Next == \E a \in Acts : FreshVal(a) /\ Step(a)
 Spec == Init /\ [][Next]_allvars
